@@ -33,6 +33,8 @@ type CrashFault struct {
 	Write int    `json:"write,omitempty"`
 	Keep  int    `json:"keep,omitempty"`
 	Err   string `json:"err,omitempty"` // tear: "" = the process dies, ENOSPC/EIO = the write fails
+	// Sibling: the process dies with the complete new cache under this name beside an untouched cache.json
+	Sibling string `json:"sibling,omitempty"`
 }
 
 type crashScen struct{}
@@ -80,7 +82,7 @@ func (crashScen) Gen(r *Rng, cfg GenConfig) any {
 			delete(disk, op.Path)
 		}
 	}
-	editPath, editOld := "", ""
+	editPath, editOld, editNew := "", "", ""
 	if r.Chance(3, 4) {
 		p := Pick(r, chFiles)
 		if ks := sortedKeys(disk); len(ks) > 0 && r.Chance(2, 3) {
@@ -88,7 +90,7 @@ func (crashScen) Gen(r *Rng, cfg GenConfig) any {
 		}
 		nc := Pick(r, chContents)
 		if old, ok := disk[p]; ok && old != nc {
-			editPath, editOld = p, old
+			editPath, editOld, editNew = p, old, nc
 		}
 		c.Prefix = append(c.Prefix, CHOp{Op: "write", Path: p, Content: nc})
 	}
@@ -98,7 +100,14 @@ func (crashScen) Gen(r *Rng, cfg GenConfig) any {
 	}
 	for k := r.Range(2, 3); k > 0; k-- {
 		var cont []CHOp
-		switch k := r.Intn(4); {
+		switch k := r.Intn(5); {
+		case k == 4 && editPath != "": // a third content, a run on it, then back to what the killed run saw
+			var third string
+			for third = Pick(r, chContents); third == editNew; third = Pick(r, chContents) {
+			}
+			run := CHOp{Op: "run", Tasks: c.Run.Tasks, JSON: r.Chance(3, 4)}
+			c.Conts = append(c.Conts, []CHOp{{Op: "write", Path: editPath, Content: third}, run, {Op: "write", Path: editPath, Content: editNew}, run})
+			continue
 		case k <= 1 && editPath != "": // put the edited file back as it was before the killed run
 			cont = append(cont, CHOp{Op: "write", Path: editPath, Content: editOld})
 		case k <= 2:
@@ -255,8 +264,8 @@ func (cs crashScen) Exec(w *World, cc any, prop string) *Result {
 			f.CrashAt = c.Fault.Point
 			label = fmt.Sprintf("point#%d", c.Fault.Point)
 		} else {
-			f.TearWrite, f.TearKeep, f.TearErr = c.Fault.Write, c.Fault.Keep, c.Fault.Err
-			label = fmt.Sprintf("tear#%d@%d%s", c.Fault.Write, c.Fault.Keep, c.Fault.Err)
+			f.TearWrite, f.TearKeep, f.TearErr, f.TearSibling = c.Fault.Write, c.Fault.Keep, c.Fault.Err, c.Fault.Sibling
+			label = fmt.Sprintf("tear#%d@%d%s%s", c.Fault.Write, c.Fault.Keep, c.Fault.Err, c.Fault.Sibling)
 		}
 		variants = append(variants, variant{f, label, c.Fault.Kind})
 	} else {
@@ -298,6 +307,12 @@ func (cs crashScen) Exec(w *World, cc any, prop string) *Result {
 						f.TearErr = Pick(kr, []string{"ENOSPC", "EIO"})
 					}
 					variants = append(variants, variant{f, fmt.Sprintf("tear#%d@%d/%d%s", nw, k, p.Len, f.TearErr), "tear"})
+				}
+				// and a kill that leaves the finished new file beside an untouched cache.json
+				for _, name := range Shuffled(kr, chDebris)[:2] {
+					f := NoFaults()
+					f.TearWrite, f.TearSibling = nw, name
+					variants = append(variants, variant{f, fmt.Sprintf("tear#%d->%s", nw, name), "tear"})
 				}
 				nw++
 				continue
@@ -371,7 +386,7 @@ func (cs crashScen) Exec(w *World, cc any, prop string) *Result {
 					if vr.class == "point" {
 						pin.Fault = &CrashFault{Kind: "point", Point: vr.f.CrashAt}
 					} else {
-						pin.Fault = &CrashFault{Kind: "tear", Write: vr.f.TearWrite, Keep: vr.f.TearKeep, Err: vr.f.TearErr}
+						pin.Fault = &CrashFault{Kind: "tear", Write: vr.f.TearWrite, Keep: vr.f.TearKeep, Err: vr.f.TearErr, Sibling: vr.f.TearSibling}
 					}
 					res.Pinned = &pin
 				}
